@@ -496,8 +496,21 @@ fn rand_tree(r: &mut Rng, depth: usize, prefix: &str, out: &mut Vec<Step>, allow
         match r.below(10) {
             0..=5 => {
                 let ext = *r.pick(EXTS);
-                let c = if allow_bad && r.chance(1, 5) { *r.pick(BAD_TEMPLATES) } else { *r.pick(GOOD_TEMPLATES) };
-                out.push(Step::Write(format!("{prefix}{stem}.rs.{ext}"), c.as_bytes().to_vec()));
+                let c: Vec<u8> = if r.chance(1, 12) {
+                    // template files that are not valid UTF-8 (a Latin-1 encoded file): a stray byte inside a
+                    // comment is skipped with the comment (the template is valid); in the text it is an ordinary
+                    // parse failure — warned about, undeclared, and no concern of any other template
+                    if allow_bad && r.chance(1, 2) {
+                        r.pick(&[&b"@()\n<p>caf\xe9</p>\n"[..], &b"@(a: &str)\n@a \xff\n"[..], &b"\xc3@()\nx"[..]]).to_vec()
+                    } else {
+                        r.pick(&[&b"@()\n@* caf\xe9 au lait *@\n<p>legacy</p>\n"[..], &b"@* \xff\xfe *@\n@(n: usize)\n@* \x80 *@<b>@n</b>\n"[..]]).to_vec()
+                    }
+                } else if allow_bad && r.chance(1, 5) {
+                    r.pick(BAD_TEMPLATES).as_bytes().to_vec()
+                } else {
+                    r.pick(GOOD_TEMPLATES).as_bytes().to_vec()
+                };
+                out.push(Step::Write(format!("{prefix}{stem}.rs.{ext}"), c));
                 if let Some(i) = STEMS_ODD.iter().position(|s| *s == stem) {
                     if r.chance(1, 2) {
                         // its neighbour in the list (the name a normalisation would confuse it with), same
@@ -816,7 +829,7 @@ fn history_scenario(r: &mut Rng) -> Scenario {
     let files: Vec<String> = steps.iter().filter_map(|s| if let Step::Write(p, _) = s { Some(p.clone()) } else { None }).collect();
     let nedits = r.range(1, 4);
     for _ in 0..nedits {
-        match r.below(9) {
+        match r.below(12) {
             0 => steps.push(Step::Write(format!("templates/{}.rs.html", r.pick(STEMS)), r.pick(GOOD_TEMPLATES).as_bytes().to_vec())),
             1 => {
                 if !files.is_empty() {
@@ -849,9 +862,22 @@ fn history_scenario(r: &mut Rng) -> Scenario {
                 };
                 steps.push(Step::OutWrite(target.into(), garbage));
             }
-            _ => {
+            8 => {
                 // truncate an existing output: handled at run time (needs the current content)
                 steps.push(Step::OutWrite("@truncate".into(), vec![r.next() as u8]));
+            }
+            9 => {
+                // an existing output with its lines in another order (same length, same lines): what an earlier
+                // run in another read_dir order leaves in mod.rs, or residue of any kind in any file
+                steps.push(Step::OutWrite("@permute".into(), vec![r.next() as u8]));
+            }
+            _ => {
+                // an edit that only exchanges lines of a template: parameters and the lines that use them
+                let name = format!("templates/{}.rs.html", r.pick(STEMS));
+                let (a, b) = if r.chance(1, 2) { ("title", "author") } else { ("author", "title") };
+                steps.push(Step::Write(name.clone(), format!("@({a}: &str, {b}: &str)\n<h1>@{a}</h1>\n<h2>@{b}</h2>\n").into_bytes()));
+                steps.push(Step::Run);
+                steps.push(Step::Write(name, format!("@({b}: &str, {a}: &str)\n<h2>@{b}</h2>\n<h1>@{a}</h1>\n").into_bytes()));
             }
         }
         steps.push(Step::Run);
@@ -1077,6 +1103,29 @@ pub fn run(args: &crate::Args) {
                         };
                         let _ = std::fs::write(p, &content[..cut]);
                         stats.hit("truncations");
+                    }
+                    prev_was_run = false;
+                }
+                Step::OutWrite(rel, c) if rel == "@permute" => {
+                    let snap = snapshot(&outdir);
+                    let cands: Vec<(&String, Vec<&[u8]>)> = snap
+                        .iter()
+                        .map(|(p, c)| (p, c.split_inclusive(|b| *b == b'\n').collect::<Vec<&[u8]>>()))
+                        .filter(|(_, l)| l.len() >= 3 && l.last().map_or(false, |x| x.ends_with(b"\n")))
+                        .collect();
+                    if !cands.is_empty() {
+                        let (p, lines) = &cands[c[0] as usize % cands.len()];
+                        let mut l: Vec<&[u8]> = lines.clone();
+                        match c[0] % 3 {
+                            0 => l.rotate_left(1),
+                            1 => l.reverse(),
+                            _ => {
+                                let n = l.len();
+                                l.swap(n / 2, n / 2 - 1)
+                            }
+                        }
+                        let _ = std::fs::write(p, l.concat());
+                        stats.hit("permutations");
                     }
                     prev_was_run = false;
                 }
